@@ -35,11 +35,12 @@ RULE += ' ' + 'One cache workload in seven uses a Disk subclass that names each 
 RULE += ' ' + 'One deque scenario in eight works on a deque of 1001-1100 items (reverse / rotate / extend); after a kill inside reverse a later process reverses twice and must get the same deque.'
 RULE += ' ' + 'One cache workload in eight starts with 300-400 KB of value files without rows (debris of earlier kills) under a 300 KB size limit.'
 RULE += ' ' + "The first-open scenario compares the shards' size limits after the kill."
+RULE += ' ' + 'One deque scenario in seven works on 4100-4500 items kept in files.'
 ASSUMPTIONS = ['in-process kill: after the kill instant no task of the victim has any further effect and its descriptors are closed '
                '(what the OS does for SIGKILL); power loss is not modelled',
                'real-kill mode: single victim, kill instant derived from the seed (seam step or progress-handler tick)']
 PROBES = ('kill_mid_file_write', 'kill_torn_chunk', 'kill_in_txn', 'kill_between_commit_and_unlink', 'realkill', 'kill_inside_first_open',
-          'debris_unknown_file', 'bulk_partial', 'keynamed_refusal', 'deque_over_1000', 'debris_of_earlier_kills')
+          'debris_unknown_file', 'bulk_partial', 'keynamed_refusal', 'deque_over_1000', 'debris_of_earlier_kills', 'deque_over_4096_files')
 TECHNIQUE = 'deterministic simulation with crash injection: kill point enumerated over all seam events of sampled workloads; post-crash state checked by linearizability with the interrupted operation pending'
 LEVEL_TEXT = ('fault enumeration: workloads are sampled by seed, but within a workload every kill point at seam granularity is run '
               '(thorough tier), so for that workload the crash-point quantifier is decided completely at that granularity; the '
@@ -113,7 +114,16 @@ def gen_case(seed, tier):
                 op['n'] = rng.choice((1, 2, 3))
             prog.append(op)
         progs = {'v': prog}
-        if rng.random() < 0.12:
+        if seed % 7 == 4:
+            # a deque of several thousand items kept in files, so that one transaction replaces / removes more than 4096 value
+            # files (thresholds a batching scheme might have)
+            cfg['maxlen'] = None
+            cfg['deque_prefill'] = rng.choice((4100, 4500))
+            cfg['settings']['disk_min_file_size'] = 0
+            cfg['deque_prefill_files'] = True
+            cfg['step_cap'] = 900000
+            progs = {'v': [rng.choice(({'op': 'dreverse'}, {'op': 'drotate', 'n': -1}, {'op': 'drotate', 'n': 4200}))]}      # (clear() goes in batches by design)
+        elif rng.random() < 0.12:
             # a deque of more than a thousand items (beyond any in-memory shortcut or page size) reversed / rotated / extended
             cfg['maxlen'] = None
             cfg['deque_prefill'] = rng.choice((1001, 1030, 1100))
@@ -372,8 +382,8 @@ def _keys_in(op):
         yield op['k']
 
 
-def deque_model(prog, maxlen, init=0):
-    d = collections.deque((fp(i) for i in range(init)), maxlen=maxlen)
+def deque_model(prog, maxlen, init=0, as_bytes=False):
+    d = collections.deque((fp(b'%d' % i if as_bytes else i) for i in range(init)), maxlen=maxlen)
     for op in prog:
         name = op['op']
         try:
@@ -426,7 +436,7 @@ def run_deque(case):
         except Exception as exc:  # noqa
             violations.append({'rule': 'C07/present-key-unreadable', 'sig': type(exc).__name__, 'detail': str(exc)[:100]})
             out['final'] = None
-        if out['final'] is not None and any(op['op'] == 'dreverse' for op in case['progs']['v']):
+        if out['final'] is not None and any(op['op'] == 'dreverse' for op in case['progs']['v']) and not case['cfg'].get('deque_prefill_files'):
             # whatever the dead process left must not get into a later reversal: twice reversed is the same deque
             try:
                 dq.reverse()
@@ -446,7 +456,12 @@ def run_deque(case):
     prepare = None
     if npre:
         def prepare(world, main):
-            main.extend(range(npre))
+            if case['cfg'].get('deque_prefill_files'):
+                main.cache.reset('disk_min_file_size', 0)
+                main.extend(b'%d' % i for i in range(npre))
+                probes['deque_over_4096_files'] = 1
+            else:
+                main.extend(range(npre))
         probes['deque_over_1000'] = 1
     out = conc.run_and_inspect(case, inspect, prepare=prepare)
     violations = out['violations']
@@ -460,14 +475,14 @@ def run_deque(case):
     done = [h for h in out['history'] if h['ret'] is not None]
     pending = [h for h in out['history'] if h['ret'] is None]
     n = len(done)
-    cands = [deque_model(prog[:n], case['cfg'].get('maxlen'), npre)]
+    cands = [deque_model(prog[:n], case['cfg'].get('maxlen'), npre, bool(case['cfg'].get('deque_prefill_files')))]
     if pending:
-        cands.append(deque_model(prog[:n + 1], case['cfg'].get('maxlen'), npre))
+        cands.append(deque_model(prog[:n + 1], case['cfg'].get('maxlen'), npre, bool(case['cfg'].get('deque_prefill_files'))))
     if out.get('final') is not None and out['final'] not in cands and pending:
         pop = pending[0]['op']
         if pop['op'] in ('dextend', 'dextendleft', 'diadd'):
             # a bulk insertion interrupted after some of its items: the items so far are there, the rest is not
-            partial = [deque_model(prog[:n] + [dict(pop, vs=pop['vs'][:m])], case['cfg'].get('maxlen'), npre) for m in range(1, len(pop['vs']))]
+            partial = [deque_model(prog[:n] + [dict(pop, vs=pop['vs'][:m])], case['cfg'].get('maxlen'), npre, bool(case['cfg'].get('deque_prefill_files'))) for m in range(1, len(pop['vs']))]
             if out['final'] in partial:
                 violations.append({'rule': 'C07/post-crash-state', 'sig': 'bulk-insertion-partly-applied',
                                    'detail': '%s interrupted by the kill left %s; before %s, complete %s' % (pop['op'], out['final'], cands[0], cands[-1])})
@@ -951,6 +966,10 @@ def _victim_seams(case):
         npre = case['cfg']['deque_prefill']
 
         def prepare(world, main):
-            main.extend(range(npre))
+            if case['cfg'].get('deque_prefill_files'):
+                main.cache.reset('disk_min_file_size', 0)
+                main.extend(b'%d' % i for i in range(npre))
+            else:
+                main.extend(range(npre))
     conc.run_and_inspect(copy.deepcopy(case), inspect, prepare=prepare)
     return counts
